@@ -111,6 +111,34 @@ def Snap.answer (s : Snap) (nvars : Nat) : Option (Rat × Vec) :=
     | _, _ => none
   else none
 
+/-- largest / smallest non-zero magnitude among the coefficients lp_solve received is at least 2^16 -/
+def Snap.wideRange (s : Snap) : Bool :=
+  let cs := (s.rows.flatMap (fun r => r.coef.filterMap finQ?)).filter (fun x => x != 0) |>.map absQ
+  match cs with
+  | [] => false
+  | c :: _ => decide ((cs.foldl minQ c) * 65536 ≤ cs.foldl maxQ c)
+
+def wideVecs (vs : List Vec) : Bool :=
+  let cs := (vs.flatMap id).filter (fun x => x != 0) |>.map absQ
+  match cs with
+  | [] => false
+  | c :: _ => decide ((cs.foldl minQ c) * 65536 ≤ cs.foldl maxQ c)
+
+/-- clause name of a missed witness: what lp_solve itself answered for that LP (0/1 = it claims an optimum with delta ≤ 0), and
+    whether the LP mixes magnitudes (the regime of the open finding C12-witnesslp-mixed-magnitudes); without a recorded call
+    the name of the earlier rounds -/
+def missKind (M : Rat) (sn : Option Snap) : String :=
+  match sn with
+  | none => if decide (M < 1000000) then "missed_witness" else "missed_witness_at_magnitude_above_1e6"
+  | some sn =>
+    let what := if sn.result == 0 || sn.result == 1 then "missed_witness" else
+      if sn.result == 2 then "missed_witness_lp_solve_says_infeasible" else
+      if sn.result == 3 then "missed_witness_lp_solve_says_unbounded" else
+      if sn.result == 5 then "missed_witness_lp_solve_says_numfailure" else
+      if sn.result == 25 then "missed_witness_lp_solve_says_accuracyerror" else "missed_witness_lp_solve_fails"
+    if sn.wideRange then what ++ "_at_dynamic_range_above_2p16" else
+    if decide (M < 1000000) then what else what ++ "_at_magnitude_above_1e6"
+
 /-- exact, lp_solve-independent answer to the witness question `(best, v)`: `(delta*, belief, multipliers over best)` -/
 def exactWitness (S : Nat) (best : List Vec) (v : Vec) : Option (Rat × Vec × Vec) :=
   DrvC12LP.gameSolve S (best.map (fun g => List.zipWith (fun x y => x - y) v g))
@@ -307,10 +335,12 @@ def prune : P String := do
   -- and the exact optimum of the witness question itself (rational simplex, independent of lp_solve)
   let cands := probeBeliefs S ++ (certs ++ need).filterMap (fun c => c.b.bind normalize)
   let candsOf := fun (c : Call) => match exactWitness S c.best c.v with | some (_, b, _) => b :: cands | none => cands
-  let missed := calls.find? (fun c => c.w.isNone && (candsOf c).any (fun b => violationOK S eps c.best b c.v))
-  let a := match missed with
-    | some c =>
-      let kind := if decide (M < 1000000) then "missed_witness" else "missed_witness_at_magnitude_above_1e6"
+  let missed := (List.range calls.length).find? (fun i => match calls[i]? with
+    | some c => c.w.isNone && (candsOf c).any (fun b => violationOK S eps c.best b c.v)
+    | none => false)
+  let a := match missed.bind (fun i => calls[i]?.map (fun c => (i, c))) with
+    | some (i, c) =>
+      let kind := missKind M (if snaps.length == calls.length then snaps[i]? else none)
       let wb := match (candsOf c).find? (fun b => violationOK S eps c.best b c.v) with | some b => showVec b | none => ""
       let msg := s!"WitnessLP {kind} v={showVec c.v} rows={c.best.length} belief={wb}"
       { a with v := a.v.failIf true msg }
@@ -330,10 +360,22 @@ def prune : P String := do
     let others := kept.eraseIdx i
     if others.isEmpty then a else
     let n1 := neededClause S (tiny M) (tiny M / 1000) (Gen.equalToleranceSmall * (1 + M)) extra others k (need.find? (fun c => c.idx == i))
-    let n2 := if n1 == .undecided then neededClause S (tiny M) (tiny M / 1000) (Gen.equalToleranceSmall * (1 + M)) extra others k (exactCert S i others k) else n1
+    -- fallback on the exact simplex: its belief may only show that `k` IS needed, its multipliers that `k` is covered; the
+    -- exact-tie test stays on the structural beliefs (probes, recorded witness points): at the simplex optimum a covered
+    -- vector that touches the envelope ties it by construction, which is not the exact corner/face tie the clause is about
+    let n2 := if n1 != .undecided then n1 else
+      match exactWitness S others k with
+      | some (_, b, lam) =>
+        if strictNeededOK S (tiny M) others b k then .ok
+        else neededClause S (tiny M) (tiny M / 1000) (Gen.equalToleranceSmall * (1 + M)) extra others k (some ⟨i, some lam, none⟩)
+      | none => n1
     match n2 with
     | .ok => a
-    | .bad => { a with v := a.v.failIf true s!"Pruner unneeded_vector_kept idx={i} {showVec k}" }
+    | .bad =>
+      -- a set that mixes magnitudes (largest / smallest non-zero entry ≥ 2^16) is the regime of the open finding
+      -- C12-witnesslp-mixed-magnitudes (lp_solve answers the witness LP wrongly, here with a spurious witness): own clause name
+      let kind := if wideVecs xs then "unneeded_vector_kept_at_dynamic_range_above_2p16" else "unneeded_vector_kept"
+      { a with v := a.v.failIf true s!"Pruner {kind} idx={i} {showVec k}" }
     | .within => { a with within := a.within + 1 }
     | .undecided => { a with undecided := a.undecided + 1 }) a
   return a.render
@@ -367,7 +409,7 @@ def wlp : P String := do
     | none =>
       match exactWitness S best qv with
       | some (_, b, _) =>
-        let kind := if decide (M < 1000000) then "missed_witness" else "missed_witness_at_magnitude_above_1e6"
+        let kind := missKind M (snaps[i]?)
         vd.failIf (violationOK S eps best b qv) s!"WitnessLP {kind} v={showVec qv} rows={k} belief={showVec b}"
       | none => vd) vd
   return renderV vd
